@@ -91,6 +91,13 @@ CMR_ERROR CMRregularitySearchOnesum(CMR* cmr, DecompositionTask* task, Decomposi
 
     CMR_CALL( CMRregularityTaskFree(cmr, &task) );
   }
+  else
+  {
+    /* The matrix has no rows and no columns. It is trivially series-parallel with nothing left to decompose. */
+    task->node->testedTwoConnected = true;
+    task->node->type = CMR_SEYMOUR_NODE_TYPE_SERIES_PARALLEL;
+    CMR_CALL( CMRregularityTaskFree(cmr, &task) );
+  }
 
   CMR_CALL( CMRfreeBlockArray(cmr, &components) );
 
